@@ -106,7 +106,12 @@ func (k *KVStore) Compaction() (bool, error) {
 				if len(k.tables) == 1 {
 					break
 				}
-				delete(k.tablesByCoefficient, t.Coefficient())
+				// evictTable has already removed the recycled table from the coefficient
+				// index and Reset cleared its coefficient. Deleting by the cleared
+				// coefficient would unlink the table with the coefficient zero.
+				if k.tablesByCoefficient[t.Coefficient()] == t {
+					delete(k.tablesByCoefficient, t.Coefficient())
+				}
 				k.tables = append(k.tables[:i], k.tables[i+1:]...)
 				i--
 			}
